@@ -37,12 +37,12 @@ def items(tier):
     for fl in list(F.flows(3, F.KINDS4, (1, 2)))[:: (7 if tier == "quick" else 2)]:
         if not fl["links"]:
             continue
-        for api in ("int", "extend", "extend-gen"):
+        for api in ("int", "extend", "extend-gen", "input-only"):
             sp = dict(F.with_teams(fl, "POOL2"), link_api=api)
             out.append((sp, {"rule": "TSLACK", "max_time": F.seq_bound(sp) + 8}))
     for sp in F.second_workflow_specs() + F.five_task_join_specs()[::4]:
         out.append((sp, {"rule": "TSLACK", "max_time": F.seq_bound(sp) + 8}))
-    for sp in F.auto_component_specs() + F.auto_in_workplace_specs() + F.same_name_task_specs() + F.nested_running_specs():
+    for sp in F.auto_component_specs() + F.auto_in_workplace_specs() + F.same_name_task_specs() + F.nested_running_specs() + F.ff_chain_specs():
         for aa in (False, True):
             out.append((sp, {"rule": "TSLACK", "auto_abs": aa, "max_time": F.seq_bound(sp) + 10}))
     # zero-work (milestone) tasks: not exempt - their default progress is 0 - so they must wait like any other task
